@@ -36,11 +36,18 @@ func zzCfg(cfg int) (cid.Prefix, bool) {
 
 const zzPermMask = os.FileMode(0x1FF) | os.ModeSetuid | os.ModeSetgid | os.ModeSticky
 
-// zzAttrs: 0 = none, 1 = mode only, 2 = mtime only, 3 = both. Mode: any non-zero combination of permission,
-// setuid, setgid and sticky bits. Mtime: seconds in [2^28, 2^35) (one varint length), any nanoseconds.
+// zzAttrs: 0 = none, 1 = mode only, 2 = mtime only, 3 = both (symbolic), 4/5 = concrete corner-case times.
+// Symbolic mode: any non-zero combination of permission, setuid, setgid and sticky bits. Symbolic mtime: seconds in
+// [2^28, 2^35) (years 1978..3058, one varint length), any nanoseconds.
 func zzAttrs(attrs int) (os.FileMode, time.Time) {
 	var mode os.FileMode
 	var mtime time.Time
+	switch attrs {
+	case 4: // concrete: before 1970 with a sub-second part (negative seconds)
+		return 0o640, time.Unix(-5, 250000000)
+	case 5: // concrete: year 2500, beyond the range of Time.UnixNano
+		return 0, time.Unix(16725225600, 7)
+	}
 	if attrs&1 != 0 {
 		mode = os.FileMode(verifrt.NondetU32("mode"))
 		verifrt.Assume(mode&^zzPermMask == 0)
